@@ -13,12 +13,18 @@
 (*           EM route - an explicit refusal, not demanded); a unit-system     *)
 (*           request may be refused, but then by every route                  *)
 (*   Shape   one number per input number                                      *)
-(*   Id      A->A returns the input numbers, on every route                   *)
+(*   Id      A->A returns the input numbers, on every route; and the SOURCE  *)
+(*           object of any copy-route conversion still holds its input        *)
+(*           numbers under its input unit afterwards - also after an          *)
+(*           in-place conversion was applied to the returned copy (fam src):   *)
+(*           the laws hold for every use of a quantity, not only the first    *)
 (*   Inv     A->B->A (copy, in place, mixed, via a unit-system base) returns  *)
 (*           the input numbers                                                *)
-(*   Comp    A->B->C gives the numbers and the unit of A->C (same route)      *)
+(*   Comp    A->B->C gives the numbers and the unit of A->C (same route;      *)
+(*           copy then in place (mixed) against the copy route)               *)
 (*   Routes  all routes of one request give the same numbers, and those that  *)
-(*           return a unit the same unit                                      *)
+(*           return a unit the same unit; this includes A->A'(copy)->B (in    *)
+(*           place on the copy) and A->B asked again of the source afterwards *)
 (* Not demanded: bit-identical floats, result dtype/class (C16/C17), which    *)
 (* unit a unit system picks (C10), 1- and 2-byte integers (C17/C18).          *)
 EXTENDS Convert
@@ -41,15 +47,16 @@ First(S) == CHOOSE j \in S : \A k \in S : j <= k
 
 \* get_conversion_factor applied by hand has no EM route: refusing across dimensions is not a disagreement
 Refusable(o, r) == /\ r.rt = "hand"
-                   /\ \/ r.fam = "ab" /\ UA(o).dim # UB(o).dim
-                      \/ r.fam = "ac" /\ UA(o).dim # UC(o).dim
-                      \/ r.fam = "base" /\ UA(o).dim \in EmDims
+                   /\ LET A == PoolU[o.a] IN
+                      \/ r.fam = "ab" /\ A.dim # PoolU[o.b].dim
+                      \/ r.fam = "ac" /\ A.dim # PoolU[o.c].dim
+                      \/ r.fam = "base" /\ A.dim \in EmDims
 
 Fail(n, o, j, clause) == [tag |-> "P-FAIL", i |-> n, clause |-> clause, fam |-> o.res[j].fam, rt |-> o.res[j].rt,
                        exc |-> o.res[j].exc, cls |-> ClsOf(UA(o)), j |-> j]
 
-PFails(n, o) ==
-  LET cd == Ev(o).cd
+PFails(n, o, ev) ==
+  LET cd == ev.cd
       G == Good(o, cd)
       x == AsObs(X(o))
       \* a supported conversion request returns; a unit-system request may be refused (UnitsNotReducible: the system
@@ -58,10 +65,13 @@ PFails(n, o) ==
                                       /\ \/ o.res[j].fam \notin {"base", "bback"}
                                          \/ \E k \in DOMAIN o.res : o.res[k].fam = "base" /\ o.res[k].k = "ok"}
       shape == {j \in DOMAIN o.res : o.res[j].k = "ok" /\ ~(ShapeOk(o, o.res[j]) /\ RefsOk(cd, o.res[j]))}
+      idto == {k \in InFam(o, G, "id") : o.res[k].rt = "to"}
       id == {j \in InFam(o, G, "id") : Nums(cd, o.res[j]) # x}
+            \cup {j \in InFam(o, G, "src") : \/ Nums(cd, o.res[j]) # x
+                                              \/ \E k \in idto : o.res[k].u # o.res[j].u}
       inv == {j \in InFam(o, G, "aba") \cup InFam(o, G, "bback") : Nums(cd, o.res[j]) # x}
       comp == {j \in InFam(o, G, "abc") :
-                 \E k \in InFam(o, G, "ac") : /\ o.res[k].rt = o.res[j].rt
+                 \E k \in InFam(o, G, "ac") : /\ o.res[k].rt = (IF o.res[j].rt = "mixed" THEN "to" ELSE o.res[j].rt)
                                               /\ \/ Nums(cd, o.res[k]) # Nums(cd, o.res[j])
                                                  \/ o.res[k].u # o.res[j].u}
       routes == UNION {
@@ -76,13 +86,13 @@ PFails(n, o) ==
   \cup {Fail(n, o, j, "Inv") : j \in inv} \cup {Fail(n, o, j, "Comp") : j \in comp} \cup {Fail(n, o, j, "Routes") : j \in routes}
 
 \* T: the transcription's prediction for each route (exact cases: numbers; all cases: return/refuse, requested unit)
-ExpectedIdx(r) == CASE r.fam = "id" -> 1 [] r.fam = "aba" -> 2 [] r.fam = "bback" -> 2 [] r.fam = "ab" -> 1
+ExpectedIdx(r) == CASE r.fam = "id" -> 1 [] r.fam = "src" -> 1 [] r.fam = "aba" -> 2 [] r.fam = "bback" -> 2 [] r.fam = "ab" -> 1
                     [] r.fam = "abc" -> 1 [] r.fam = "ac" -> 2 [] r.fam = "base" -> 1
 ExpectedDt(o, r) == IF r.rt = "to_value" THEN ToValueDt(o.dt, o.sh)
                     ELSE IF r.rt \in {"to", "in_units"} /\ r.fam \in {"id", "ab", "ac"} THEN CopyDt(o.dt)
                     ELSE IF r.rt = "convert" /\ r.fam \in {"id", "ab", "ac"} THEN InPlaceDt(o.dt) ELSE NormDt(r.dt)
-TFails(n, o) ==
-  LET ev == Ev(o) cd == ev.cd
+TFails(n, o, ev) ==
+  LET cd == ev.cd
       \* no prediction for unit-system requests (refusals are the unit system's business) nor for to_value of a
       \* complex quantity (float() of a complex number: recorded finding)
       kbad == {j \in DOMAIN o.res : /\ o.res[j].fam \notin {"base", "bback"}
@@ -102,8 +112,9 @@ TFails(n, o) ==
   \cup {[tag |-> "T-FAIL", i |-> n, what |-> "dtype", fam |-> o.res[j].fam, rt |-> o.res[j].rt] : j \in dbad}
   \cup {[tag |-> "T-FAIL", i |-> n, what |-> "exactness", fam |-> "", rt |-> ""] : j \in xbad}
 
-Report(n, o) == /\ \A f \in PFails(n, o) : PrintT(ToJson(f))
-                /\ \A f \in TFails(n, o) : PrintT(ToJson(f))
+Report(n, o) == LET ev == Ev(o) IN
+                /\ \A f \in PFails(n, o, ev) : PrintT(ToJson(f))
+                /\ \A f \in TFails(n, o, ev) : PrintT(ToJson(f))
 
 \* one fan-out step: every observation is a successor of the initial state (TLC evaluates the tables built from
 \* IOEnv data once per evaluation of Next, so all cases are judged within a single evaluation)
